@@ -435,22 +435,22 @@ Print Assumptions c08_model_fit_failed.
 
 (* a Fresh model predicts the dense posterior of its data under the LIVE parameters: mean = m + k*^T alpha,
    variance = max(scale - k*^T beta, floor) for every alpha, beta solving the dense systems with
-   A = K(X,X; live parameters) + noise I *)
+   A = K(X,X; live parameters) + noise I (proved square and symmetric); the only side conditions are that no
+   Cholesky pivot fails ([chol_ok]) and that there is one target per input *)
 Theorem c08_model_predict_dense :
   forall (jit floor : R) (m : gmodel NumR) (d : gdata NumR) (L : list (list R)) (P Xt : list (list R)),
     gm_state NumR m = Some (d, (L, P)) -> Fresh NumR jit m ->
     let p := gm_params NumR m in
     let A := gp_sysmat NumR jit p d in
-    Square A -> Symmetric A -> chol_ok A [] -> length (gd_y NumR d) = length (gd_X NumR d) ->
-    length A = length (gd_X NumR d) ->
+    chol_ok A [] -> length (gd_y NumR d) = length (gd_X NumR d) ->
     forall means vars, gpredict NumR jit floor m Xt = Some (means, vars) ->
     forall t (alpha beta : list R), (t < length Xt)%nat ->
-      length alpha = length A -> length beta = length A ->
+      length alpha = length (gd_X NumR d) -> length beta = length (gd_X NumR d) ->
       mv NumR A alpha = vsub NumR (gd_y NumR d) (map (fun _ => gp_mean NumR p) (gd_X NumR d)) ->
       mv NumR A beta = nth t (gp_kcols NumR jit p d Xt) [] ->
       mean_entry means t 0 = gp_mean NumR p + dot NumR (nth t (gp_kcols NumR jit p d Xt) []) alpha /\
       nth t vars 0 = Rmax (gp_cs NumR p - dot NumR (nth t (gp_kcols NumR jit p d Xt) []) beta) floor.
-Proof. exact gpredict_dense. Qed.
+Proof. exact gpredict_dense_wf. Qed.
 Print Assumptions c08_model_predict_dense.
 
 (* non-vacuity: one data point, unit parameters, jitter 0: after set_params + recompute the model is Fresh and
